@@ -24,7 +24,7 @@ func init() {
 			"(4) both validators rebuild the mapping and apply zero-check + decrement + nomination check per candidate, and ConsolidationValidator.isValid validates candidates before and after the command; " +
 			"(5) Controller.disrupt calls ComputeCommands only with a mapping built without error for the method's own reason.",
 		NotCovered: []string{"cron arithmetic inside robfig/cron", "accumulation across rounds beyond 'marked nodes are subtracted'", "numeric values of percent rounding"},
-		Rules: c05Rules,
+		Rules:      c05Rules,
 	})
 }
 
@@ -101,14 +101,14 @@ func c05Rules(tier string) []Rule {
 			return core.InstrPresent(w, id, "PROV", "(*disr.Emptiness).ComputeCommands", `^store &local<disr\.Command>\.Candidates = phi\(makeslice<\[\]\*disr\.Candidate>\|`, 1, "the emptiness command carries the budget-filtered candidates")
 		}},
 		DOM{ID: "C05.DOM4", Fn: "(*disr.MultiNodeConsolidation).ComputeCommands", Shallow: true, Sink: `^call append\(`, Gates: gates(
-			G(`-^`+zero(`\(\*disr\.consolidation\)\.sortCandidates\(\$0\.consolidation, \$3\)`)),
+			G(`-^` + zero(`\(\*disr\.consolidation\)\.sortCandidates\(\$0\.consolidation, \$3\)`)),
 		)},
 		POST{ID: "C05.DOM4b", Fn: "(*disr.MultiNodeConsolidation).ComputeCommands", Shallow: true, From: `^call append\(`, Must: []string{dec}},
 		core.Custom{ID: "C05.DOM4c", Kind: "PROV", Run: func(w *core.World, id string) []core.Result {
 			return core.ArgProvenance(w, id, "(*disr.MultiNodeConsolidation).ComputeCommands", `^call \(\*disr\.MultiNodeConsolidation\)\.firstNConsolidationOption\(`, 2, `^phi\(makeslice<\[\]\*disr\.Candidate>\|`, "multi-node search runs on the budget-filtered candidates only")
 		}},
 		DOM{ID: "C05.DOM5", Fn: "(*disr.SingleNodeConsolidation).ComputeCommands", Sink: `^call \(\*disr\.consolidation\)\.computeConsolidation\(`, Gates: gates(
-			G(`-^`+zero(`\(\*disr\.SingleNodeConsolidation\)\.SortCandidates\(\$0, \$3\)`)),
+			G(`-^` + zero(`\(\*disr\.SingleNodeConsolidation\)\.SortCandidates\(\$0, \$3\)`)),
 		)},
 		core.Custom{ID: "C05.DOM5b", Kind: "PROV", Run: func(w *core.World, id string) []core.Result {
 			// a single-node command has exactly the one candidate that was budget-checked
